@@ -39,6 +39,7 @@ class RecFrame:
 
     def clone(self):
         r = RecFrame(self.binders, self.pc_len)
+        r.before = getattr(self, "before", set())
         r.fresh = set(self.fresh)
         r.effects = list(self.effects)
         r.reads = list(self.reads)
@@ -47,6 +48,9 @@ class RecFrame:
     def log_write(self, ex, st, ref, new):
         g = t_and(*st.pc[self.pc_len:])
         val = new
+        if isinstance(val, VRef) and val.root not in getattr(self, "before", ()):
+            # objects created inside the iteration are recorded by value
+            val = ex.resolve(st, val)
         self.effects.append(Effect("set", ref.root, ref.path, val, g))
 
 
@@ -148,6 +152,8 @@ class Interp(Exec):
         return None
 
     def imported(self, q):
+        if q in STD_FUNCS:
+            return VFunc("std", name=STD_FUNCS[q])
         last = q.split(".")[-1]
         if last in self.schema.classes:
             return VClass(last)
@@ -817,6 +823,15 @@ class Interp(Exec):
 
     # comprehension / calls / statements live in interp2 (mixed in)
 
+
+STD_FUNCS = {
+    "copy.copy": "copy", "copy.deepcopy": "deepcopy", "functools.partial": "partial",
+    "natsort.natsorted": "natsorted", "math.ceil": "ceil", "math.floor": "floor", "statistics.mean": "mean",
+    "collections.defaultdict": "defaultdict", "collections.Counter": "Counter",
+    "re.split": "re.split", "re.match": "re.match", "os.path.exists": "os.path.exists",
+    "os.path.isfile": "os.path.isfile", "os.path.splitext": "os.path.splitext", "os.path.basename": "os.path.basename",
+    "os.path.abspath": "os.path.abspath", "time.time": "time.time", "datetime.datetime.now": "now",
+}
 
 BUILTIN_NAMES = {
     "len", "sum", "any", "all", "min", "max", "abs", "float", "int", "str", "bool", "isinstance", "hasattr",
